@@ -125,8 +125,12 @@ pub fn exec(run: u64, prog: &Value, out: &mut Out) {
             }
         }
         "aml" => {
-            let n = Node(get(inner, "tree").clone());
-            observe(&n, None, run, inner, out)
+            // alternately the crate's own objects throughout and wrapper children (user-defined Aml implementors)
+            if run % 2 == 0 {
+                observe(&crate::fam_aml::NativeNode(get(inner, "tree").clone()), None, run, inner, out)
+            } else {
+                observe(&Node(get(inner, "tree").clone()), None, run, inner, out)
+            }
         }
         "sub" => {
             let st = str_of(get(inner, "st"));
